@@ -52,7 +52,7 @@ class JWSRegistry:
         if name not in self.algorithms:
             raise UnsupportedAlgorithmError(f'Algorithm of "{name}" is not supported')
 
-        if self.allowed:
+        if self.allowed is not None:
             if name not in self.allowed:
                 raise UnsupportedAlgorithmError(f'Algorithm of "{name}" is not allowed')
         else:
@@ -73,7 +73,7 @@ default_registry = JWSRegistry()
 
 
 def construct_registry(algorithms: list[str] | None = None) -> JWSRegistry:
-    if algorithms:
+    if algorithms is not None:
         registry = JWSRegistry(algorithms=algorithms)
     else:
         registry = default_registry
